@@ -260,6 +260,20 @@ func buildSchema(c sCase) *jsonapi.Schema {
 		}
 		return s
 	}
+	if c.Build == "api" {
+		// the same types through the editing methods, around two types that are removed
+		// again: whatever the methods keep besides Types (an index, a cache) has seen a removal
+		must(s.AddType(jsonapi.Type{Name: "zq0"}))
+		for i, t := range c.State {
+			if i == 1 {
+				must(s.AddType(jsonapi.Type{Name: "zq1"}))
+			}
+			must(s.AddType(toType(t)))
+		}
+		s.RemoveType("zq0")
+		s.RemoveType("zq1")
+		return s
+	}
 	for _, op := range c.Hist {
 		applySchemaOp(s, op)
 	}
